@@ -979,7 +979,11 @@ func c19SampleAndCheck(r *fw.Rec, s *c19Setup, img *c19Img, class string) bool {
 			if err != nil {
 				out = fmt.Sprintf("error %v", err)
 			}
-			r.Violation("model-mismatch", api+":read-outside-image", fmt.Sprintf("%s %dx%d on a %dx%d image read %d pixel(s) outside the image (returned %s)", api, s.dimX, s.dimY, img.w, img.h, oob, out), d)
+			sig := api + ":read-outside-image:matrix-returned"
+			if err != nil {
+				sig = api + ":read-outside-image:before-not-found"
+			}
+			r.Violation("model-mismatch", sig, fmt.Sprintf("%s %dx%d on a %dx%d image read %d pixel(s) outside the image (returned %s)", api, s.dimX, s.dimY, img.w, img.h, oob, out), d)
 			return false
 		}
 		if err != nil && !c19NotFound(err) {
@@ -992,7 +996,15 @@ func c19SampleAndCheck(r *fw.Rec, s *c19Setup, img *c19Img, class string) bool {
 		}
 		switch exp.cls {
 		case c19Any:
-			r.Tally("calls_outcome_not_demanded_limit_borderline")
+			if exp.twisted {
+				if err != nil {
+					r.Tally("calls_twisted_notfound")
+				} else {
+					r.Tally("calls_twisted_matrix_no_outside_read")
+				}
+			} else {
+				r.Tally("calls_outcome_not_demanded_limit_borderline")
+			}
 			continue
 		case c19Far:
 			if err == nil {
@@ -1057,9 +1069,6 @@ func c19SampleAndCheck(r *fw.Rec, s *c19Setup, img *c19Img, class string) bool {
 				r.TallyN("samplegrid_rows_"+k, int64(v))
 			}
 		}
-	}
-	if exp.twisted {
-		r.Tally("calls_twisted_unexpected")
 	}
 	r.Tally("sampling_setups_" + class)
 	r.NontrivialH(c19HashFloats(c19Flat(s.src), c19Flat(s.dst)) ^ uint64(s.dimX)<<40 ^ uint64(s.dimY)<<20 ^ uint64(img.w)<<10 ^ uint64(img.h))
@@ -1151,6 +1160,54 @@ func c19DimBucket(dx, dy int) string {
 		return "square_" + b(dx)
 	}
 	return "nonsquare"
+}
+
+// c19CentralCase: the defining quadrilateral is a small square in the middle of
+// the grid (the Aztec detector samples a 15..151 module grid through the corners
+// of the bull's eye, the QR detector a grid that extends 3.5 modules beyond its
+// points), so even a mild perspective puts the line that maps to infinity
+// inside the grid.  No rejection on the denominator here: when it changes sign
+// inside the grid only the unconditional demands are made (no panic, no read
+// outside the image, error kind); otherwise the full cell oracle applies.
+func c19CentralCase(r *fw.Rec, idx int) {
+	rng := r.Rng
+	for rep := 0; rep < 6; rep++ {
+		dim := 15 + 4*rng.Intn(35)
+		if rng.Intn(3) == 0 {
+			dim = 21 + 4*rng.Intn(8)
+		}
+		half := float64(2 + rng.Intn(8))
+		if rng.Intn(4) == 0 { // QR style: everything but a 3.5 module margin
+			half = float64(dim)/2 - 3.5
+		}
+		c := float64(dim) / 2
+		src := [4][2]float64{{c - half, c - half}, {c + half, c - half}, {c + half, c + half}, {c - half, c + half}}
+		w, h := 60+rng.Intn(500), 60+rng.Intn(500)
+		img := c19NewImg(rng, w, h, []string{"black", "noise"}[rng.Intn(2)])
+		module := 0.4 + 3*rng.Float()
+		if lim := math.Min(float64(w), float64(h)) / float64(dim); module > lim {
+			module = lim
+		}
+		cx, cy := float64(w)*(0.3+0.4*rng.Float()), float64(h)*(0.3+0.4*rng.Float())
+		dst := c19GenQuad(rng, "perspective", cx, cy, half*module*1.4)
+		hm, ok := c19Solve(src, dst)
+		if !ok {
+			continue
+		}
+		s := &c19Setup{dimX: dim, dimY: dim, src: src, dst: dst, family: "perspective", srcKind: "central", places: [4]string{"central", "", "", ""}, h: hm}
+		exp := c19Expected(hm, dim, dim, img)
+		if exp.twisted {
+			r.Tally("central_setups_denominator_changes_sign_inside_grid")
+		} else {
+			r.Tally("central_setups_denominator_constant_sign")
+		}
+		if !c19SampleAndCheck(r, s, img, "central") {
+			return
+		}
+		if idx == 0 && rep == 0 {
+			r.Sample(map[string]interface{}{"kind": "sampling/central", "dim": dim, "image": fmt.Sprintf("%dx%d %s", w, h, img.kind), "to": c19Flat(src), "from": c19Flat(dst)})
+		}
+	}
 }
 
 // ---------------------------------------------------------------------------
@@ -1340,12 +1397,14 @@ func c19DirectCase(r *fw.Rec, idx int) {
 		}
 		switch {
 		case mode <= 6:
+			// corner mode: the same perpendicular band for all k points (a straight row
+			// of points is monotone in both coordinates)
+			b2 := c19Bands[(rng.Intn(2)+2*(1-coord(band)))%4]
 			for j := 0; j < k; j++ {
 				p := idxOf(j)
 				pts[2*p+coord(band)] = bandVal(band)
 				want[2*p+coord(band)] = edge(band)
 				if mode == 6 { // also the perpendicular band: image corner
-					b2 := c19Bands[(rng.Intn(2)+2*(1-coord(band)))%4]
 					pts[2*p+coord(b2)] = bandVal(b2)
 					want[2*p+coord(b2)] = edge(b2)
 				}
@@ -1381,6 +1440,7 @@ func c19DirectCase(r *fw.Rec, idx int) {
 			}
 			if mode == 6 {
 				r.Tally("direct_corner_band_" + which)
+				r.Tally("direct_corner_band_" + which + "_" + band + "_" + b2)
 			} else {
 				r.Tally("direct_" + which + "_" + band)
 			}
@@ -1526,8 +1586,8 @@ func c19SelfTest() error {
 }
 
 func c19(c *fw.Ctx) {
-	c.Rule("transform: seeded convex quadrilateral pairs of four families (axis-aligned rectangle, rotated rectangle, sheared parallelogram, perspective = every corner moved independently; both orientations, any starting corner, magnitudes 1..2000, grid-like sources), rejected unless every corner triangle holds >= 8% of the squared diameter; QuadrilateralToQuadrilateral / SquareToQuadrilateral / QuadrilateralToSquare checked through TransformPoints and TransformPointsXY on the 4 corners and 24 interior/exterior points against the projective map solved exactly (8x9 system, big.Rat), points with |denominator| < 0.2 of the corner denominators skipped. sampling: every grid dimension 1..177 (square) plus random non-square/special dimensions, images 2..307 px (noise, all-black, blocks, black/white frame), grid->image pairs of the four families fitted so that the hull of the cell centres lies inside the image (class inside) or overhangs each edge by <1 px, 1..2 px, >2 px (class overhang), or is an affine map aimed at one band x one pass (class targeted); expected bit = model pixel at floor of the exactly mapped cell centre (big.Int homogeneous arithmetic), bands [-1,0)/[n,n+1) -> index 0/n-1; direct calls of checkAndNudgePoints with 1..3 leading/trailing points in each band. distinct = distinct (quadrilateral pair, dims, image size)")
-	c.Assume("don't-care: coordinates in (-2,-1) may be nudged to 0 or refused (DESIGN C19); cells whose exact centre is within 1e-6*max(1,|coord|) of a pixel boundary are not asserted; calls with a cell within that margin of the -2 / n+1 limits have no demanded outcome; transforms whose denominator changes sign or falls below 15% of its maximum inside the grid rectangle are not generated (a straight grid row then maps to a straight monotone run of points, which is what makes checking only the row ends sufficient); checkAndNudgePoints is only charged for points at the ends of the list; after a nudge only the pixel index (floor) of each coordinate is demanded, not its exact value")
+	c.Rule("transform: seeded convex quadrilateral pairs of four families (axis-aligned rectangle, rotated rectangle, sheared parallelogram, perspective = every corner moved independently; both orientations, any starting corner, magnitudes 1..2000, grid-like sources), rejected unless every corner triangle holds >= 8% of the squared diameter; QuadrilateralToQuadrilateral / SquareToQuadrilateral / QuadrilateralToSquare checked through TransformPoints and TransformPointsXY on the 4 corners and 24 interior/exterior points against the projective map solved exactly (8x9 system, big.Rat), points with |denominator| < 0.2 of the corner denominators skipped. sampling: every grid dimension 1..177 (square) plus random non-square/special dimensions, images 2..307 px (noise, all-black, blocks, black/white frame), grid->image pairs of the four families fitted so that the hull of the cell centres lies inside the image (class inside) or overhangs each edge by <1 px, 1..2 px, >2 px (class overhang), or is an affine map aimed at one band x one pass (class targeted); class central: the defining square is small and in the middle of a 15..151 module grid (Aztec bull's eye / QR margin style) with a perspective destination and no restriction on the denominator - where it changes sign inside the grid only no-panic, no-read-outside-the-image and the error kind are demanded; expected bit = model pixel at floor of the exactly mapped cell centre (big.Int homogeneous arithmetic), bands [-1,0)/[n,n+1) -> index 0/n-1; direct calls of checkAndNudgePoints with 1..3 leading/trailing points in each band. distinct = distinct (quadrilateral pair, dims, image size)")
+	c.Assume("don't-care: coordinates in (-2,-1) may be nudged to 0 or refused (DESIGN C19); cells whose exact centre is within 1e-6*max(1,|coord|) of a pixel boundary are not asserted; calls with a cell within that margin of the -2 / n+1 limits have no demanded outcome; transforms whose denominator changes sign or falls below 15% of its maximum inside the grid rectangle are not generated (a straight grid row then maps to a straight monotone run of points, which is what makes checking only the row ends sufficient); checkAndNudgePoints is only charged for points at the ends of the list; after checkAndNudgePoints only the pixel index that SampleGrid derives from each coordinate (int(v), i.e. a value left in (-1,0) counts as index 0) is demanded, not its exact value; the hook counts BitMatrix.Get calls with out-of-range coordinates: such a call is charged as 'pixel outside the image read' although Get answers false without touching memory")
 	nT := c.Pick(400, 6000)
 	for i := 0; i < nT; i++ {
 		i := i
@@ -1542,6 +1602,11 @@ func c19(c *fw.Ctx) {
 	for i := 0; i < nO; i++ {
 		i := i
 		c.Run(fmt.Sprintf("sample/overhang/%d", i), func(r *fw.Rec) { c19SamplingCase(r, 177+i, true) })
+	}
+	nC := c.Pick(200, 3000)
+	for i := 0; i < nC; i++ {
+		i := i
+		c.Run(fmt.Sprintf("sample/central/%d", i), func(r *fw.Rec) { c19CentralCase(r, i) })
 	}
 	nG := c.Pick(160, 1600)
 	for i := 0; i < nG; i++ {
@@ -1573,6 +1638,10 @@ func c19(c *fw.Ctx) {
 			c.Floor("samplegrid_rows_"+p+"_"+b, 20)
 		}
 	}
+	c.Floor("central_setups_denominator_changes_sign_inside_grid", 100)
+	c.Floor("central_setups_denominator_constant_sign", 100)
+	c.Floor("direct_corner_band_firstpass", 50)
+	c.Floor("direct_corner_band_lastpass", 50)
 	c.Floor("grid_dims_square_1", 1)
 	c.Floor("grid_dims_square_2", 1)
 	c.Floor("grid_dims_square_177", 1)
